@@ -946,22 +946,24 @@ class UserCellsImpl(CellsImpl):
     def on_set_property(self, flags, define, func, enable_cache):
         """Set formula and/or is_cached"""
 
+        if flags & self.PROP_FORMULA:
+            # Parse first: a rejected formula must leave everything unchanged
+            if isinstance(func, NullFormula):
+                formula = NULL_FORMULA
+            else:
+                if isinstance(func, Formula):
+                    cls = func.__class__
+                else:
+                    cls = Formula
+                formula = cls(func, name=self.name)
+
         self.model.clear_obj(self)
 
         if self.is_derived() and define:
             self.set_defined()
 
         if flags & self.PROP_FORMULA:
-
-            if isinstance(func, NullFormula):
-                self.formula = NULL_FORMULA
-            else:
-                if isinstance(func, Formula):
-                    cls = func.__class__
-                else:
-                    cls = Formula
-                self.formula = cls(func, name=self.name)
-
+            self.formula = formula
             self.altfunc = CellsBoundFunction(self)
 
         if flags & self.PROP_CACHE:
